@@ -359,7 +359,21 @@ func (g *gen) content() []byte {
 	}
 	// content is not always text: runs of NUL bytes (sparse files, padded
 	// archives), arbitrary binary
-	switch g.r.Weighted([]int{80, 5, 5, 5, 5}) {
+	switch g.r.Weighted([]int{80, 5, 5, 5, 5, 3}) {
+	case 5: // whole blocks, the last one (or two) all zeros: what a sparse-aware copy seeks over
+		k := 1 + g.r.Intn(4)
+		blk := rt.Pick(g.r, []int{512, 4096, 4096, 4096})
+		nb := make([]byte, k*blk)
+		for i := range nb {
+			nb[i] = b[i%len(b)]
+		}
+		if nb[0] == 0 {
+			nb[0] = 'x'
+		}
+		for i := len(nb) - blk*(1+g.r.Intn(min(2, k))); i >= 0 && i < len(nb); i++ {
+			nb[i] = 0
+		}
+		b = nb
 	case 1: // all zeros
 		for i := range b {
 			b[i] = 0
@@ -744,6 +758,91 @@ func (g *gen) genSetup() {
 	}
 	if g.r.Chance(0.04) {
 		g.deepChain()
+	}
+	if g.r.Chance(0.03) {
+		g.wideCollection()
+	}
+	if g.r.Chance(0.05) {
+		g.twins()
+	}
+}
+
+// wideCollection: one collection with far more members than requests ever put
+// into one in a run: batch sizes, worker pools, caps and "first N" short cuts
+// only show against such a listing. Mostly dozens to hundreds, rarely thousands.
+func (g *gen) wideCollection() {
+	n := rt.Pick(g.r, []int{63, 64, 65, 129, 150, 257, 300, 1000, 1100, 2049, 2100})
+	if g.r.Chance(0.08) {
+		n = rt.Pick(g.r, []int{4200, 10001, 10100})
+	}
+	p := g.pickPath("missing")
+	for depthOf(p) > 2 {
+		p = model.Parent(p)
+	}
+	if g.j.T.N[p] != nil {
+		return
+	}
+	g.plan.Setup = append(g.plan.Setup, SetupOp{Mkcol: p})
+	g.j.T.Mkcol(p)
+	sub := p
+	for i := 0; i < n; i++ {
+		if i%97 == 50 {
+			// a few sub-collections, so that "descendants" and "members" differ
+			sub = model.Join(p, fmt.Sprintf("s%05d", i))
+			g.plan.Setup = append(g.plan.Setup, SetupOp{Mkcol: sub})
+			g.j.T.Mkcol(sub)
+			continue
+		}
+		dir := p
+		if i%97 > 50 && i%97 < 60 {
+			dir = sub
+		}
+		f := model.Join(dir, fmt.Sprintf("m%05d", i))
+		d := []byte(fmt.Sprintf("w%d", i))
+		g.plan.Setup = append(g.plan.Setup, SetupOp{Put: f, Data: d})
+		g.j.T.PutFile(f, d)
+	}
+}
+
+// twins: two collections whose members have the same names but not the same
+// kinds and contents: what a COPY or MOVE of one onto the other has to replace
+// as a whole, and what a member-by-member merge gets wrong half-way.
+func (g *gen) twins() {
+	a, b := g.pickPath("missing"), ""
+	for depthOf(a) > 2 {
+		a = model.Parent(a)
+	}
+	if g.j.T.N[a] != nil {
+		return
+	}
+	g.plan.Setup = append(g.plan.Setup, SetupOp{Mkcol: a})
+	g.j.T.Mkcol(a)
+	b = g.pickPath("missing")
+	for depthOf(b) > 2 {
+		b = model.Parent(b)
+	}
+	if g.j.T.N[b] != nil || b == a || model.IsAncestor(a, b) || model.IsAncestor(b, a) {
+		return
+	}
+	g.plan.Setup = append(g.plan.Setup, SetupOp{Mkcol: b})
+	g.j.T.Mkcol(b)
+	names := []string{"a", "b", "c", "d", "e"}
+	for i, n := range names[:3+g.r.Intn(3)] {
+		for k, top := range []string{a, b} {
+			p := model.Join(top, n)
+			asDir := (i+k)%2 == 0 && i > 0 && g.r.Chance(0.7)
+			if i == 0 || !asDir {
+				d := g.content()
+				g.plan.Setup = append(g.plan.Setup, SetupOp{Put: p, Data: d})
+				g.j.T.PutFile(p, d)
+				continue
+			}
+			g.plan.Setup = append(g.plan.Setup, SetupOp{Mkcol: p})
+			g.j.T.Mkcol(p)
+			d := g.content()
+			g.plan.Setup = append(g.plan.Setup, SetupOp{Put: model.Join(p, "inner"), Data: d})
+			g.j.T.PutFile(model.Join(p, "inner"), d)
+		}
 	}
 }
 
